@@ -71,6 +71,18 @@ THEOREMS = [NS + t for t in (
     "C11_trav_attr_edit_agree",
     "C11_trav_finished_not_visited",
     "C11_trav_detached_runs_to_end",
+    "C11_rec_acyclic_complete",
+    "C11_rec_static_complete",
+    "C11_trav_acyclic_complete",
+    "C11_trav_refines_rec_next",
+    "C11_trav_refines_rec_drain",
+    "C11_trav_refines_rec",
+    "C11_trav_rec_same_spec",
+    "C11_trav_nodup",
+    "C11_trav_meth_reduces",
+    "C11_trav_meth_history",
+    "C11_trav_untouched_once",
+    "C11_trav_never_twice",
 )]
 ASSUMPTIONS = [
     "CPython generators are modelled as explicit cursors (suspended at the yield; the loop reads box.next / box.prev "
@@ -83,8 +95,14 @@ ASSUMPTIONS = [
     "iterator ends in RecursionError (observed, not modelled: CPython's recursion limit)",
     "attribute edits (Model/Traversal.lean): node.attributes is modelled as a CPython dict at the level of its entries "
     "table (insertion order, dead slots, usable-slot count, compaction on insertion_resize) and its key iterator "
-    "(di_used / len / di_pos); UserDict / MutableMapping methods are reduced to __setitem__ / __delitem__; Attr objects "
-    "are immutable (value is a read-only property, GRAPHS values are tuples)",
+    "(di_used / len / di_pos); the public methods of Attributes (__setitem__ / add, and UserDict / MutableMapping "
+    "__delitem__ / update / pop / popitem / clear / setdefault) are transcribed in the model as the primitive dict writes "
+    "they perform (AMeth.prims) and compared per call (result + key order); `|=` (UserDict.__ior__, writes .data "
+    "directly) is not transcribed; Attr objects are immutable (value is a read-only property, GRAPHS values are tuples)",
+    "C11_trav_nodup / C11_trav_never_twice: tree shape = TWorld.treeShape (no graph nested in itself, no node in two graphs, "
+    "no graph under two attribute positions of present members, root under none), evaluated by the driver and compared "
+    "with the harness' own computation; C11_trav_untouched_once: admissibility (tAdm: only next() / node-sequence edits, "
+    "touched nodes in X, X closed under 'nested below', acyclic in every world) is evaluated by the driver per iterator",
     "callbacks (enter_graph / exit_graph / recursive) observe only: they do not edit graphs or attributes",
 ]
 
@@ -1597,6 +1615,47 @@ class TravWorld:
     def attached(self):
         return {h for spec in self.cur.values() for a in spec.values() for h in _aval_graphs(a)}
 
+    def refs(self):
+        """every subgraph reference a traversal can follow: present members on which the predicate holds"""
+        out = []
+        for g in range(self.ngraphs):
+            out += self.kids(g)
+        return out
+
+    def tree_shape(self):
+        """no graph nested in itself, no graph under two attribute positions, the root under none (a node is only ever
+        inserted into its own graph, so no node is a member of two graphs)"""
+        r = self.refs()
+        return (not self.cyclic()) and len(set(r)) == len(r) and 0 not in r
+
+    def walk(self, rev, g=0, depth=0):
+        """the clause itself: pre-order walk over the current sequences and attributes -> yielded node ids"""
+        if depth > self.ngraphs + 1:
+            return []
+        out = []
+        for i in (self.L[g][::-1] if rev else self.L[g]):
+            out.append(nid(g, i))
+            if self.pred_false is not None and i in self.pred_false.get(g, ()):
+                continue
+            for a in self.cur[(g, i)].values():
+                hs = _aval_graphs(a)
+                for h in (hs[::-1] if rev and a[0] == "gs" else hs):
+                    out += self.walk(rev, h, depth + 1)
+        return out
+
+    def static_below(self, v):
+        """all nodes (members or not) of the graphs nested - through the attributes of any node - below node v"""
+        seen, todo = set(), [h for a in self.cur[divmod(v, 10)].values() for h in _aval_graphs(a)]
+        while todo:
+            h = todo.pop()
+            if h in seen:
+                continue
+            seen.add(h)
+            for i in range(self.per):
+                for a in self.cur[(h, i)].values():
+                    todo += _aval_graphs(a)
+        return {nid(h, i) for h in seen for i in range(self.per)}
+
     # -- iterators
     def new_iter(self, rev, flavour="plain"):
         from onnx_ir import traversal
@@ -1616,7 +1675,8 @@ class TravWorld:
         if flavour == "reversed":
             it = reversed(it)
         self.its.append({"it": it, "ev": ev, "rev": rev, "evstack": [], "lastat": {}, "yields": [], "stale": False,
-                         "done": False})
+                         "done": False, "attr_calls": 0, "touched": set(), "tree0": self.tree_shape(),
+                         "walk0": self.walk(rev), "cyc": self.cyclic()})
         self.req["ops"].append({"o": "iter", "rev": rev})
         self.real.append({"r": len(self.its) - 1})
         return len(self.its) - 1
@@ -1692,6 +1752,8 @@ class TravWorld:
         if ok:
             refcall()
         now = [[self.ident[id(n)][1] for n in gr] for gr in self.graphs]
+        for c in self.its:
+            c["touched"].update([e["v"]] if "v" in e else e["vs"])
         self.req["ops"].append({"o": "edit", "g": g, "e": e})
         self.real.append({"r": ok, "L": [[nid(g2, i) for i in l] for g2, l in enumerate(now)]})
         self.L = now
@@ -1710,7 +1772,7 @@ class TravWorld:
         self._after_attr(key, size_changes)
         self.cur[key][k] = aval
         self.req["ops"].append({"o": "seta", "v": nid(*key), "k": k, "a": _aval_json(aval)})
-        self.real.append({"r": True})
+        self.real.append({"r": True, "keys": self.real_keys(key)})
 
     def del_attr(self, key, k, how="del"):
         node = self.nodes[key]
@@ -1727,8 +1789,115 @@ class TravWorld:
         if ok:
             self._after_attr(key, True)
             self.cur[key].pop(k, None)
+        else:
+            self._after_attr(key, False)
         self.req["ops"].append({"o": "dela", "v": nid(*key), "k": k})
-        self.real.append({"r": ok})
+        self.real.append({"r": ok, "keys": self.real_keys(key)})
+
+    def real_keys(self, key):
+        """node.attributes as it is: [[key, value]..] in dict order, values in the model's vocabulary"""
+        ir = self.ir
+        out = []
+        for n, a in self.nodes[key].attributes.items():
+            if not isinstance(a, ir.Attr) or a.is_ref():
+                v = {"x": 0}
+            elif a.type == ir.AttributeType.GRAPH:
+                v = {"g": self.gid[id(a.value)]}
+            elif a.type == ir.AttributeType.GRAPHS:
+                v = {"gs": [self.gid[id(g)] for g in a.value]}
+            else:
+                v = {"x": 0}
+            out.append([TKEYS.index(n), v])
+        return out
+
+    def meth(self, key, m, k=None, aval=None, kvs=None, dflt=None, form="mapping"):
+        """One call of a public method of node.attributes on the real object, the `meth` request for the model (AMeth), and the
+        documented effect on the harness' own copy (a plain dict; popitem of a MutableMapping removes the FIRST item).
+        aval None = a value that is not an Attr (TypeError)."""
+        node = self.nodes[key]
+        A = node.attributes
+        exp = dict(self.cur[key])
+        exp_ok = True
+
+        def mk(kk, av):
+            return "not-an-attr" if av is None else _mk_attr(self.ir, self.graphs, kk, av)
+
+        def aj(av):
+            return None if av is None else _aval_json(av)
+
+        op = {"o": "meth", "v": nid(*key), "m": m}
+        ok = True
+        try:
+            if m == "setitem":
+                op.update(k=k, a=aj(aval))
+                if aval is None:
+                    exp_ok = False
+                else:
+                    exp[k] = aval
+                A[TKEYS[k]] = mk(k, aval)
+            elif m == "add":
+                op.update(k=k, a=aj(aval))
+                exp[k] = aval
+                A.add(mk(k, aval))
+            elif m == "update":
+                op["kvs"] = [[kk, aj(av)] for kk, av in kvs]
+                for kk, av in kvs:
+                    if av is None:
+                        exp_ok = False
+                        break
+                    exp[kk] = av
+                items = [(TKEYS[kk], mk(kk, av)) for kk, av in kvs]
+                A.update(dict(items) if form == "mapping" else items)
+            elif m == "delitem":
+                op.update(k=k)
+                if k in exp:
+                    del exp[k]
+                else:
+                    exp_ok = False
+                del A[TKEYS[k]]
+            elif m == "pop":
+                op.update(k=k, dflt=bool(dflt))
+                if k in exp:
+                    del exp[k]
+                else:
+                    exp_ok = bool(dflt)
+                if dflt:
+                    A.pop(TKEYS[k], None)
+                else:
+                    A.pop(TKEYS[k])
+            elif m == "popitem":
+                if exp:
+                    del exp[next(iter(exp))]
+                else:
+                    exp_ok = False
+                A.popitem()
+            elif m == "clear":
+                exp = {}
+                A.clear()
+            elif m == "setdefault":
+                op.update(k=k, a=aj(aval))
+                if k not in exp:
+                    if aval is None:
+                        exp_ok = False
+                    else:
+                        exp[k] = aval
+                A.setdefault(TKEYS[k], mk(k, aval))
+            else:
+                raise AssertionError(m)
+        except (KeyError, TypeError):
+            ok = False
+        keys = self.real_keys(key)
+        want = [[kk, _aval_json(av)] for kk, av in exp.items()]
+        if ok != exp_ok or keys != want:
+            self.fail("attr-method", f"attributes.{m}(k={k}, value={aval}, items={kvs}) on {self.cur[key]}: returned "
+                                     f"normally={ok} (documented: {exp_ok}), attributes now {keys} (documented: {want})")
+            # keep the harness' copy in line with the real object so that the remaining clauses are evaluated on what is there
+            exp = {kk: (("g", v["g"]) if "g" in v else ("gs", list(v["gs"])) if "gs" in v else ("x",)) for kk, v in keys}
+        self._after_attr(key, set(exp) != set(self.cur[key]))
+        self.cur[key] = exp
+        self.part.count("attr-meth=" + m)
+        self.req["ops"].append(op)
+        self.real.append({"r": ok, "keys": keys, "eff": True})
 
     def clear_attrs(self, key):
         """node.attributes.clear() is MutableMapping.clear: popitem() until empty = delete the keys in order"""
@@ -1744,6 +1913,7 @@ class TravWorld:
     def _after_attr(self, key, size_changes):
         v = nid(*key)
         for k, c in enumerate(self.its):
+            c["attr_calls"] += 1
             if c["done"]:
                 continue
             _stack, expanding, _cur = self.position(k)
@@ -1773,24 +1943,100 @@ class TravWorld:
         self.real.append({"out": stream, "r": res})
         return stream, res
 
+    def spec(self, rev):
+        """No edits: a fresh iterator run to its end.  Under tree shape every node of the nest is yielded exactly once
+        (C11_trav_nodup); the clause is evaluated on the real stream."""
+        from onnx_ir import traversal
+
+        ev, kw = [], {}
+        if self.pred_false is not None:
+            def pred(n):
+                g, i = self.ident[id(n)]
+                ev.append(["p", nid(g, i)])
+                return i not in self.pred_false.get(g, ())
+            kw["recursive"] = pred
+        it = traversal.RecursiveGraphIterator(
+            self.graphs[0], reverse=rev, enter_graph=lambda g: ev.append(["en", self.gid[id(g)]]),
+            exit_graph=lambda g: ev.append(["ex", self.gid[id(g)]]), **kw)
+        stream, res = [], None
+        total = sum(len(l) for l in self.L)
+        for _ in range((self.ngraphs + 1) * (total + 2) * 3 + 3):
+            del ev[:]
+            try:
+                n = guarded_next(it)
+                g, i = self.ident[id(n)]
+                stream += list(ev) + [["y", g, nid(g, i)]]
+            except StopIteration:
+                stream += list(ev)
+                res = STOP
+                break
+            except Exception as e:  # noqa: BLE001
+                stream += list(ev)
+                res = RAISED
+                self.fail("spec-raised", f"fresh iterator: {type(e).__name__}: {e}")
+                break
+        tree = self.tree_shape()
+        ys = [o[2] for o in stream if o[0] == "y"]
+        nest = sorted(set(self.walk(rev)))
+        if tree and (len(set(ys)) != len(ys) or sorted(ys) != nest):
+            self.fail("tree-exactly-once", f"tree-shaped nest, no edits: fresh iterator (reverse={rev}) yielded {ys}; the nodes of the "
+                                           f"nest are {nest}")
+        if ys != self.walk(rev):
+            self.fail("preorder", f"fresh iterator (reverse={rev}) yielded {ys}, pre-order walk {self.walk(rev)}")
+        self.part.count(f"trav-spec-tree={tree}")
+        real = {"out": stream, "r": res, "tree": tree, "same": True, "nest": nest}
+        if tree:
+            real.update(nodup=True, isnest=True)
+        self.req["ops"].append({"o": "spec", "rev": rev, "g": 0})
+        self.real.append(real)
+
+    def untouched(self, k):
+        """C11_trav_untouched_once / C11_trav_never_twice for iterator k: X = every node named by an edit of a node sequence since
+        the iterator was created, plus everything nested below such a node.  Hypotheses and conclusion are evaluated by the
+        driver; the clause ('never yields a node twice unless it - or a node it is nested below - was removed and inserted
+        again') is evaluated here on what the real iterator yielded."""
+        c = self.its[k]
+        X = set(c["touched"])
+        for v in list(X):
+            X |= self.static_below(v)
+        real = {"Y": list(c["yields"])}
+        plain = c["attr_calls"] == 0 and not c["cyc"]
+        if plain:
+            real.update(adm=True, concl=True, tree0=c["tree0"], closed0=True)
+            outside = [y for y in c["yields"] if y not in X]
+            if c["tree0"]:
+                real["nodupX"] = True
+                if len(set(outside)) != len(outside):
+                    self.fail("untouched-twice", f"iterator {k} yielded {c['yields']}: a node outside X={sorted(X)} (touched nodes and "
+                                                 "what is nested below them) was yielded twice")
+                want = [y for y in c["walk0"] if y not in X]
+                if c["done"] and outside != want:
+                    self.fail("untouched-once-in-order", f"iterator {k} ran to its end and yielded {c['yields']}; outside X={sorted(X)} "
+                                                         f"that is {outside}, the initial pre-order gives {want}")
+        self.part.count(f"untouched-plain={plain}")
+        if plain:
+            self.part.count(f"untouched-tree0={c['tree0']}")
+        self.req["ops"].append({"o": "untouched", "k": k, "X": sorted(X)})
+        self.real.append(real)
+
     def pack(self):
         return {"req": self.req, "real": self.real, "case": self.case}
 
 
-def trav_history(rng, part, nops, tag=None):
+def trav_history(rng, part, nops, tag=None, attr_edits=True):
     state = rng.getstate()
 
     def run(confirm):
         rng.setstate(state)
         try:
-            return _trav_history(rng, part, nops, tag, confirm)
+            return _trav_history(rng, part, nops, tag, confirm, attr_edits)
         except _HangConfirmed:
             return {"aborted": True}
 
     return run_confirmed(run)
 
 
-def _trav_history(rng, part, nops, tag, confirm):
+def _trav_history(rng, part, nops, tag, confirm, attr_edits=True):
     """Nested graphs; next() on RecursiveGraphIterator interleaved with edits of node sequences AND of node attributes
     (add / replace / delete GRAPH, GRAPHS and other attributes through __setitem__, add, update, del, pop, clear) on
     nodes before, at and after the position of the iterators, including the nodes whose subgraphs are being visited."""
@@ -1816,7 +2062,10 @@ def _trav_history(rng, part, nops, tag, confirm):
         pred_false = {g: {i for i in range(PER) if rng.random() < 0.3} for g in range(ngraphs)}
     inits = [list(range(rng.randrange(1, 4))) for _ in range(ngraphs)]
     case = {"trav_seed": tag, "nops": nops}
-    tw = TravWorld(part, confirm, ngraphs, PER, inits, attr0, pred_false, case)
+    if not attr_edits:
+        case["plain"] = True
+    tw = TravWorld(part, confirm, ngraphs, PER, inits, attr0, pred_false, case,
+                   sigprefix="recursive-attr" if attr_edits else "recursive-untouched")
     cyc_steps = None
     for _ in range(nops):
         if cyc_steps is not None:
@@ -1834,8 +2083,13 @@ def _trav_history(rng, part, nops, tag, confirm):
         elif r < 0.45:
             k = rng.randrange(len(tw.its))
             tw.next(k)
-        elif r < 0.6:
+        elif r < 0.6 or not attr_edits:
             g = rng.randrange(ngraphs)
+            if not attr_edits and tw.its and rng.random() < 0.6:
+                # where an iterator is: the graphs of its stack (moves of the current node / of a node being expanded)
+                stack_, _e, _c = tw.position(rng.randrange(len(tw.its)))
+                if stack_:
+                    g = rng.choice(stack_)
             L = tw.L[g]
             kind = rng.choice(["rm", "append", "ia", "ib"])
             if kind == "rm" and L:
@@ -1899,21 +2153,46 @@ def _trav_history(rng, part, nops, tag, confirm):
                     return ("g", rng.choice(pool))
                 return ("gs", [rng.choice(pool) for _ in range(rng.choice([0, 1, 2, 2]))])
 
+            def maybe_bad(av):
+                return None if rng.random() < 0.06 else av
+
             q = rng.random()
             if q < 0.4 or not have:
                 newk = [k for k in range(4) if k not in have]
                 if newk:
-                    tw.set_attr(key, rng.choice(newk), some_aval(), rng.choice(["setitem", "add", "update"]))
+                    how = rng.choice(["setitem", "add", "update", "update", "setdefault"])
+                    if how == "update":
+                        ks = rng.sample(range(4), rng.choice([1, 1, 2, 3]))  # new and existing keys, several at once
+                        form = rng.choice(["mapping", "pairs"])
+                        if form == "pairs" and rng.random() < 0.3:
+                            ks.append(rng.choice(ks))  # the same key twice
+                        tw.meth(key, "update", kvs=[(k_, maybe_bad(some_aval())) for k_ in ks], form=form)
+                    elif how == "add":
+                        tw.meth(key, "add", k=rng.choice(newk), aval=some_aval())
+                    else:
+                        tw.meth(key, how, k=rng.choice(newk), aval=maybe_bad(some_aval()))
                     part.count("attr-edit=add")
             elif q < 0.7:
-                tw.set_attr(key, rng.choice(have), some_aval(), rng.choice(["setitem", "add", "update"]))
+                how = rng.choice(["setitem", "add", "update", "setdefault"])
+                if how == "update":
+                    tw.meth(key, "update", kvs=[(rng.choice(have), maybe_bad(some_aval()))], form=rng.choice(["mapping", "pairs"]))
+                elif how == "add":
+                    tw.meth(key, "add", k=rng.choice(have), aval=some_aval())
+                else:
+                    tw.meth(key, how, k=rng.choice(have), aval=maybe_bad(some_aval()))  # setdefault on a present key: nothing
                 part.count("attr-edit=replace")
             elif q < 0.95:
                 k_ = rng.choice(have) if rng.random() < 0.9 else rng.randrange(4)
-                tw.del_attr(key, k_, rng.choice(["del", "pop"]))
+                how = rng.choice(["delitem", "pop", "pop-default", "popitem"])
+                if how == "popitem":
+                    tw.meth(key, "popitem")
+                elif how == "delitem":
+                    tw.meth(key, "delitem", k=k_)
+                else:
+                    tw.meth(key, "pop", k=k_, dflt=(how == "pop-default"))
                 part.count("attr-edit=delete")
             else:
-                tw.clear_attrs(key)
+                tw.meth(key, "clear")
                 part.count("attr-edit=clear")
             if tw.cyclic():
                 cyc_steps = 12
@@ -1927,7 +2206,12 @@ def _trav_history(rng, part, nops, tag, confirm):
         for k, c in enumerate(tw.its):
             if not c["done"]:
                 tw.drain(k, bound)
-    part.case(["trav", tag, nops], nontrivial=len(tw.its) > 0, kind="recursive-attr", ngraphs=ngraphs,
+        for k in range(len(tw.its)):
+            tw.untouched(k)
+        for rev in (False, True):
+            tw.spec(rev)
+    part.case(["trav", tag, nops, attr_edits], nontrivial=len(tw.its) > 0,
+              kind="recursive-attr" if attr_edits else "recursive-untouched", ngraphs=ngraphs,
               acyclic=not cyc, tree_shape=(not cyc and not shared), predicate=pred_false is not None)
     p = tw.pack()
     p["cyclic"] = cyc
@@ -2034,6 +2318,26 @@ def compare_trav(ctx, packs):
                 ctx.disagree(f"recursive-attr model != implementation on {bad} at step {i} ({p['req']['ops'][i]})", p["case"],
                              {k: m.get(k) for k in bad + ["inv", "ok"]}, {k: r[k] for k in bad})
                 break
+            if m.get("ref") is not None or "ref" in m:
+                # the statement of C11_trav_refines_rec_next / _drain (null: a dict iterator is out of step)
+                ctx.count("trav-refines-evaluated=" + str(m.get("ref") is not None))
+                if m.get("ref") is False:
+                    ctx.disagree(f"model: the coarse recursive model (recNext / recDrain on toR) differs from the fine one at step {i}",
+                                 p["case"], m, None)
+                    break
+            if "adm" in m:
+                ctx.count("untouched-admissible=" + str(m.get("adm")))
+                if not m.get("concl"):
+                    ctx.disagree(f"model: conclusion of C11_trav_untouched_once false on an admissible history (step {i})",
+                                 p["case"], m, None)
+                    break
+                if m.get("adm") and m.get("tree0") and not m.get("nodupX"):
+                    ctx.disagree(f"model: a node outside X yielded twice on an admissible history from a tree-shaped nest (step {i})",
+                                 p["case"], m, None)
+                    break
+            if "tree" in m and m.get("tree") and not (m.get("nodup") and m.get("isnest")):
+                ctx.disagree(f"model: conclusion of C11_trav_nodup false at step {i}", p["case"], m, None)
+                break
             if "fin" in m:
                 # hypotheses / conclusion of C11_trav_finished_not_visited at this attribute edit, per iterator
                 for f_ in m["fin"]:
@@ -2057,13 +2361,14 @@ def compare_trav(ctx, packs):
 
 
 def _work_trav(job):
-    seed, count = job
+    seed, count = job[0], job[1]
+    attr_edits = job[2] if len(job) > 2 else True
     part = Part()
     packs = []
     for i in range(count):
         tag = f"{seed}:{i}"
         rng = random.Random(tag)
-        packs.append(trav_history(rng, part, rng.choice([10, 20, 40, 60]), tag))
+        packs.append(trav_history(rng, part, rng.choice([10, 20, 40, 60]), tag, attr_edits))
     compare_trav(part, packs)
     return part, []
 
@@ -2482,7 +2787,8 @@ def run(ctx: Ctx) -> None:
     for part, _ in pmap(_work_recursive, [(f"C11:{ctx.seed}:rec:{sh}", ctx.pick(60, 600)) for sh in range(16)]):
         ctx.merge(part)
     selfnest_probe(ctx)
-    for part, _ in pmap(_work_trav, [(f"C11:{ctx.seed}:trav:{sh}", ctx.pick(60, 600)) for sh in range(16)]):
+    for part, _ in pmap(_work_trav, [(f"C11:{ctx.seed}:trav:{sh}", ctx.pick(60, 600)) for sh in range(16)]
+                        + [(f"C11:{ctx.seed}:travu:{sh}", ctx.pick(40, 400), False) for sh in range(8)]):
         ctx.merge(part)
     for part, _ in pmap(_work_trav_scen, [(rev, kind0) for rev in (False, True) for kind0 in ("g", "gs")]):
         ctx.merge(part)
@@ -2549,7 +2855,7 @@ def replay(ctx: Ctx, obj: dict) -> None:
         part = Part()
         rng = random.Random(case["trav_seed"])
         rng.choice([10, 20, 40, 60])
-        pack = trav_history(rng, part, case["nops"], case["trav_seed"])
+        pack = trav_history(rng, part, case["nops"], case["trav_seed"], not case.get("plain"))
         ctx.merge(part)
         compare_trav(ctx, [pack])
         return
